@@ -164,6 +164,9 @@ async def play(lab: L.Lab, case: dict, port: int, bind_port: int | None) -> dict
         elif op == 'stop_reading':
             if cur:
                 cur.reading = False
+        elif op == 'throttle':
+            if cur:
+                cur.read_rate = args[0] or None
         elif op == 'resume_reading':
             if cur:
                 cur.reading = True
